@@ -14,9 +14,10 @@ def run_execution(binary, seed, idx):
     fam = rng.random()
     if fam < 0.2:
         cfg['threshold'] = 1000000          # no rollover: every configuration is fully armed
-    elif fam < 0.45:
+    elif fam < 0.55:
         # the only rollover family without a second writer / sealing proposer / lagging follower: fully armed
-        cfg.update(nodes=1, producers=1, monitor=False)
+        # (longer, with a consumer and low thresholds: every rollover is a chance for a GET to meet the sealing PUT)
+        cfg.update(nodes=1, producers=1, monitor=False, consumers=max(1, cfg['consumers']), puts=cfg['puts'] * 3, threshold=min(cfg['threshold'], 3))
         nodes = 1
         # half of them without the 100 ms lease loop: every lease refresh then happens inside a call (forward_append, ensure_topic)
         cfg['lease_loop'] = rng.random() < 0.5
